@@ -541,10 +541,89 @@ def run(ctx):
             ctx.sample(o[:300])
     for name, lst in ops.items():
         judge.run_and_judge(ctx, name, [LIMIT] + lst, [h], [drv], oracle=oracle, env=ENV, key_of=key_of, what="message codec")
+    client_side(ctx)
     for key, lst in sorted(hz.items()):
         lst.sort(key=len)            # a sanitizer abort ends the stream: let the shortest input be the one reported
         ctx.dist("hazard_class_" + key, len(lst))
         judge.run_and_judge(ctx, "lengths-" + key, [LIMIT] + lst, [h], [drv], oracle=oracle, env=ENV, key_of=key_of, what="message codec")
+
+
+def client_side(ctx):
+    """"... in munged or in libmunge": the REAL munge_encode() / munge_decode() (libmunge encode.c, decode.c, ctx.c,
+    m_msg_client.c over m_msg.c) receive replies chosen here - well-formed ones of every type with boundary field values
+    (including combinations a real daemon never sends: success with an error string, an error without one), every
+    truncation, every length field lying - through the C13 harness (`r<hex>` = the client gets these bytes as the reply).
+    Under ASan/UBSan: the call must return; success only for a well-formed reply of the expected type whose error_num is 0,
+    and then with exactly the reply's payload."""
+    from . import c13
+    h = c13.build_toy(ctx)
+    if not h:
+        return
+    r = ctx.rng
+    n = 150 if ctx.tier == "quick" else 1500
+    replies = []                                           # (kind, want type, reply bytes, fields or None)
+    for want, t in ((5, 5), (3, 3)):
+        for i in range(n):
+            f = gen_msg(r, t)
+            if i % 3 == 0:
+                f["error_num"] = 0
+            if i % 7 == 0:
+                f["error_len"] = 0; f["error_str"] = b""
+            if t == 5 and i % 2 == 0:
+                f["addr_len"] = 4; f["addr"] = rnd(r, 4)
+            body = ref_pack(t, f)
+            replies.append(("wellformed", want, header(t, r.choice([0, 1, 5]), len(body)) + body, f))
+            if i % 5 == 0:                                 # a length field lying / a truncation / a wrong type / trailing bytes
+                k = r.randrange(len(body))                 # (strictly shorter)
+                replies.append(("truncated", want, header(t, 0, len(body)) + body[:k], None))
+                replies.append(("short-declared", want, header(t, 0, k) + body[:k], None))
+                for (lf, w, df) in len_fields(t):
+                    o = offset_of(t, f, lf)
+                    v = r.choice([0, 1, f[lf] + 1, max(0, f[lf] - 1), 256 ** w - 1, 256 ** w // 2])
+                    b2 = body[:o] + (v % 256 ** w).to_bytes(w, "big") + body[o + w:]
+                    replies.append(("lying-" + lf, want, header(t, 0, len(b2)) + b2, None))
+                replies.append(("wrong-type", want, header(r.choice([0, 1, 2, 4, 6, 3 if t == 5 else 5, 255]), 0, len(body)) + body, None))
+                replies.append(("trailing", want, header(t, 0, len(body) + 3) + body + b"xyz", None))
+    ops, meta = [], []
+    cred = "MUNGE:AwQFAAAAx:"
+    for kind, want, rep, f in replies:
+        sched = ",".join(["r" + hx(rep)] * 5)              # a reply that does not parse makes the client try again: the same reply each time
+        if want == 5:
+            ops.append("retry dec %s cred=%s now=1000000 peer=1:1 mem=-" % (sched, cred.encode().hex()))
+        else:
+            ops.append("retry enc %s c=1 m=1 z=1 ttl=0 au=4294967295 ag=4294967295 realm=- data=6869 now=1000000 peer=1:1 rnd=%s mem=-" % (sched, "00" * 24))
+        meta.append((kind, want, f))
+    rc, out, err = cbuild.run_lines([h, ctx.work], ops)
+    ctx.count(len(ops))
+    for (kind, want, f), o in zip(meta, ops):
+        ctx.dist("client_reply_" + kind); ctx.distinct(o if len(o) < 400 else o[:200] + str(hash(o)))
+    bad = None
+    for i, ((kind, want, f), l) in enumerate(zip(meta, out[:len(ops)])):
+        try:
+            kv = dict(x.split("=", 1) for x in l.split() if "=" in x)
+            e = int(kv["err"])
+            if kind != "wellformed" and kind != "trailing" and not kind.startswith("lying") and e == 0:
+                bad = bad or (i, "libmunge returned success for a %s reply" % kind, l)
+            if kind == "wellformed":
+                if e == 0 and f["error_num"] != 0:               # (the converse is not required: the library may refuse an empty credential etc.)
+                    bad = bad or (i, "reply says error_num=%d, libmunge returned success" % f["error_num"], l)
+                if e == 0 and want == 5 and (unhx(kv["data"]) if kv["data"] != "NULL" else b"") != f["data"][:f["data_len"]]:
+                    bad = bad or (i, "munge_decode returned a payload that is not the reply's", l)
+                if e == 0 and want == 5 and (int(kv["uid"]), int(kv["gid"])) != (f["cred_uid"], f["cred_gid"]):
+                    bad = bad or (i, "munge_decode returned uid/gid %s:%s, the reply says %d:%d" % (kv["uid"], kv["gid"], f["cred_uid"], f["cred_gid"]), l)
+        except Exception as ex:
+            bad = bad or (i, "unparsable harness output (%r)" % ex, l[:200])
+    crashed = rc != 0 or len(out) != len(ops)
+    ctx.obligation("oracle", "client side: %d scripted replies through the real libmunge (munge_encode / munge_decode) under ASan/UBSan" % len(ops),
+                   bad is None and not crashed, (bad[1] if bad else "") + (err[-1500:] if crashed else ""))
+    if crashed:
+        i = len(out)
+        ctx.violation("message codec (libmunge side): sanitizer report / crash while handling a reply",
+                      {"stream": "client-side", "harness": "h_retry_toy", "ops": [ops[i]] if i < len(ops) else [], "reply_kind": meta[i][0] if i < len(meta) else None,
+                       "impl_output": err[-3000:]}, found_input=True)
+    elif bad:
+        ctx.violation("message codec (libmunge side): " + bad[1], {"stream": "client-side", "harness": "h_retry_toy", "ops": [ops[bad[0]]], "impl_output": bad[2][:600]},
+                      found_input=True)
 
 
 def env_wrapper(ctx, h):
